@@ -12,7 +12,9 @@ recording closure (every (t, y) argument and every returned slope is logged).  O
   execution, compared with the literature and inserted into every rooted-tree order condition up to the declared order;
   error weights E are read off the step-size response and the accept/reject threshold;
 * one-step order, global accuracy on closed-form families, metamorphic relations (prefix independence, time reflection,
-  round trip, tuple/list state == concatenated state), y[0] bitwise y0.
+  round trip, tuple/list state == concatenated state), y[0] bitwise y0;
+* vf/c07_extra.py (right-hand sides returning tensors they do not own), vf/c07_tdtype.py (time grid of another dtype than the state),
+  vf/c07_firststep.py (directed: forcing that aliases with the stage times of the first trial step; known finding).
 """
 import math
 import random
@@ -35,27 +37,41 @@ LEVEL_TEXT = ("Held on every generated execution of the run: 5 methods (and the 
               "land on the requested times and the returned values are those of the landing steps); c, A, b were read off scripted "
               "executions and E off the step-size response and the accept/reject threshold, agree with the literature and satisfy every "
               "rooted-tree order condition up to the declared order (17 trees for order 5); global errors stay below a calibrated multiple of "
-              "the requested tolerance. Only the generated inputs are decided (state size <= 24, |t| <= 12, Lipschitz constant x span <= 4).")
+              "the requested tolerance. Time grids of another dtype than the state (float32 / float16 / integer grid with a float64 or float32 state, float64 "
+              "grid with a float32 state) return the state's dtype, y0 exactly and the step map of the scheme in the state's precision. "
+              "Only the generated inputs are decided (state size <= 24, |t| <= 12, Lipschitz constant x span <= 4).")
 LEVEL_NOTE = ("Trusts the literature tableaus transcribed in the module (cross-checked against scipy.integrate._ivp.rk at run time), "
               "torch.linalg.matrix_exp / elementary functions for the closed forms, and the norm convention ||err||_2 <= atol + rtol*max(||y0||_2,||y1||_2) "
               "for 'within the requested tolerances'. Accuracy bounds and observed-order margins are calibrated (>= 100x the largest error seen / "
               ">= 0.25 below the smallest order seen), so a defect that changes results by less than that is only caught by the exact monitors "
-              "(lockstep replay, identification, bitwise metamorphic relations).")
+              "(lockstep replay, identification, bitwise metamorphic relations). Accuracy is only claimed for right-hand sides that do not oscillate "
+              "inside the first requested interval: the first trial step is that whole interval and a forcing whose period divides its stage times is "
+              "integrated with an O(1) error at any tolerance (directed group firststep, known finding accuracy:alias_first_step:*).")
 RULE = ("cases drawn by seeded sampling over group {tableau, errw, order, accuracy, fixedacc, meta_prefix, meta_reflect, meta_roundtrip, meta_tuple, "
         "degenerate} x method {euler, rk4, rk38, rk23, rk45} x ODE family x grid kind x direction x tolerance setting x state layout; "
         "non-trivial = the deciding comparison of the group was reached (call history replayed to the end by the lockstep model / coefficients "
         "read off / at least s of the s+1 error weights read / both runs of a metamorphic pair completed) on a solution that is not identically "
         "zero, or the case ended in a violation")
 RULE += ("; group alias (vf/c07_extra.py): right-hand sides that return a tensor they do not own (the state, a view of it, a parameter, a closure tensor, a module attribute): exact step map, y(ts[0]) = y0, repeatability, caller's tensors unchanged")
+RULE += ("; group tdtype (vf/c07_tdtype.py): time grid of another dtype than the state (float32 / float16 / int64 / int32 grid with a float64 or float32 "
+         "state, float64 grid with a float32 state; integer and float16 grids with the fixed-step methods only) x 5 methods x families x {dyadic, generic, "
+         "integer} grids x direction x tensor / tuple / list state: result dtype = state dtype, y(ts[0]) = y0, lockstep replay in the state's precision "
+         "with the grid values converted exactly, closed-form accuracy for float64 states"
+         "; group firststep (vf/c07_firststep.py, directed): forcing whose period divides every stage time of a first trial step that spans the whole "
+         "first interval (known finding accuracy:alias_first_step:*) and the same problem behind a first interval of 1/8 period (control, evidence only)")
 MIN_NONTRIVIAL = {"quick": 2000, "thorough": 15000}
 REQUIRED_COUNTERS = {
-    "quick": {"extra_alias_compared": 100, "tableaus_identified": 200, "error_weight_sets_identified": 80, "histories_replayed": 5000, "replayed_euler": 600,
+    "quick": {"tdtype_compared": 300, "tdtype_fixed_narrow_grid": 100, "tdtype_fixed_exact_step_size": 150, "tdtype_adaptive_compared": 120,
+              "tdtype_sequence_state": 80, "tdtype_integer_grid": 40, "firststep_alias_runs": 8, "firststep_control_runs": 8,
+              "extra_alias_compared": 100, "tableaus_identified": 200, "error_weight_sets_identified": 80, "histories_replayed": 5000, "replayed_euler": 600,
               "replayed_rk4": 600, "replayed_rk38": 600, "replayed_rk23": 1400, "replayed_rk45": 2000, "steps_rejected": 1500,
               "steps_zero_length": 2000, "threshold_probes": 900, "rejections_probed": 400, "controller_probes": 900,
               "order_conditions_evaluated": 2200, "order_tests": 350, "accuracy_compared": 650, "accuracy_resolved_steps": 300,
               "metamorphic_compared": 900, "tuple_state_cases": 400, "degenerate_grids": 40, "y0_bitwise_checked": 5000,
               "default_method_calls": 20},
-    "thorough": {"extra_alias_compared": 1000, "tableaus_identified": 1400, "error_weight_sets_identified": 700, "histories_replayed": 40000, "replayed_euler": 4500,
+    "thorough": {"tdtype_compared": 7000, "tdtype_fixed_narrow_grid": 2500, "tdtype_fixed_exact_step_size": 3500, "tdtype_adaptive_compared": 2800,
+                 "tdtype_sequence_state": 2000, "tdtype_integer_grid": 1000, "firststep_alias_runs": 60, "firststep_control_runs": 60,
+                 "extra_alias_compared": 1000, "tableaus_identified": 1400, "error_weight_sets_identified": 700, "histories_replayed": 40000, "replayed_euler": 4500,
                  "replayed_rk4": 4500, "replayed_rk38": 4500, "replayed_rk23": 11000, "replayed_rk45": 16000, "steps_rejected": 12000,
                  "steps_zero_length": 16000, "threshold_probes": 8000, "rejections_probed": 4000, "controller_probes": 8000,
                  "order_conditions_evaluated": 17000, "order_tests": 2400, "accuracy_compared": 5000, "accuracy_resolved_steps": 2500,
@@ -78,6 +94,15 @@ ASSUMPTIONS = [
     "with h*L > 1 can be accepted on an accidentally small estimate; seen: 14x the resolved-step bound)",
     "error weights E are read through the controller response h_new = h*min(10, 0.9*err^(-1/(q+1))) of the code and, independently of those "
     "constants, through the accept/reject threshold err < 1 (a rejection below the threshold is reported as 'not the declared pair's estimate')",
+    "group tdtype: grid values exactly representable in the grid's dtype (dyadic: multiples of 1/4, 1/8, 1/16 with |t| <= 11.5; integer: steps 1..3; "
+    "generic: the uniform / ragged / long grids rounded to the grid's dtype, points closer than 64 eps(grid) x max(1,|t|) dropped); integer and float16 "
+    "grids only with euler / rk4 / rk38; adaptive tolerances default or (1e-6,1e-3) for float64 states, (1e-4,1e-3) or (1e-5,1e-4) for float32 states; "
+    "a 0-dim float32 tensor state with a float64 grid and a fixed-step method is reshaped to (1,) (0-dim type promotion widens it to float64 on the "
+    "unchanged tree); stage times within 100 eps(grid) x (|t0|+|h|) (seen: 0.87), state comparisons 1e3 eps(state) (seen: 1.3) plus one rounding "
+    "eps(grid) x |h| of the step size when ts[i+1]-ts[i] is not representable in the grid's dtype; rk23 accuracy factor 400 on resolved steps (seen: 3.09)",
+    "group firststep: y' = a + b cos(2 pi m (t-t0)/h + phi) and y' = y b (cos(.) - cos(phi)), m = 4 or 8 (rk23) / 90 (rk45) oscillations in the first "
+    "interval h in {0.5, 1, 2, 4, 8}, |cos(phi)| >= 0.3, tolerances default / abs / rel / tight (largest number of right-hand-side calls seen: 2941); the control "
+    "run with a first interval of 1/8 forcing period is evidence only (its accuracy is counted, not judged)",
     "a run is declared non-terminating after 8000 right-hand-side calls (largest seen: 865) or 300 consecutive calls at one time (largest seen: 13)",
 ]
 BUDGET = {"quick": {"worker_timeout": 600, "case_timeout": 60}, "thorough": {"worker_timeout": 3000, "case_timeout": 120}}
@@ -328,14 +353,15 @@ def _ref_t(method):
     return R
 
 
-def _stage_check(R, t0, h, y0, Kmat, tobs, yobs, eps, tmag=0.0, dh=0.0):
+def _stage_check(R, t0, h, y0, Kmat, tobs, yobs, eps, tmag=0.0, dh=0.0, teps=None):
     """stage times/states and step result predicted by the reference tableau vs the recorded ones, in units of eps*magnitude.
     Kmat: (s+1, N) slopes K_0..K_s (the last row is not used), tobs: (s,) times of stages 2..s and of the end of the step,
-    yobs: (s, N) arguments of stages 2..s and the new state.  Returns (rt, ry, rb)."""
+    yobs: (s, N) arguments of stages 2..s and the new state.  Returns (rt, ry, rb).
+    teps: precision in which the times are computed when it differs from that of the state (time grid of another dtype)."""
     Aext = R["Aext_t"]
     s = R["s"]
     tp = t0 + R["c_t"] * h
-    rt = float(((tobs - tp).abs() / (eps * (abs(t0) + abs(h) + tmag) + 1e-300)).max())
+    rt = float(((tobs - tp).abs() / ((eps if teps is None else teps) * (abs(t0) + abs(h) + tmag) + 1e-300)).max())
     Kd = Kmat.double()
     pred = y0.double().unsqueeze(0) + h * torch.matmul(Aext, Kd)
     mag = _inf(y0) + abs(h) * torch.matmul(Aext.abs(), Kd.abs().amax(dim=1) if Kd.shape[1] else torch.zeros(s + 1, dtype=torch.float64))
@@ -349,8 +375,11 @@ def _stage_check(R, t0, h, y0, Kmat, tobs, yobs, eps, tmag=0.0, dh=0.0):
     return rt, ry, rb
 
 
-def replay_fixed(method, log, ts, ytf, obs, key, eps):
-    """one step of the named scheme per interval: call count, stage times, stage states, step results"""
+def replay_fixed(method, log, ts, ytf, obs, key, eps, teps=None, dh_rel=0.0):
+    """one step of the named scheme per interval: call count, stage times, stage states, step results.
+    teps / dh_rel (time grid of another dtype than the state): precision of the stage times; relative uncertainty of the step size
+    (ts[i+1]-ts[i] is not representable in the grid's dtype: the scheme may use the rounded or the exact difference)"""
+    te = eps if teps is None else teps
     R = _ref_t(method)
     s = R["s"]
     nt = len(ts)
@@ -364,13 +393,13 @@ def replay_fixed(method, log, ts, ytf, obs, key, eps):
     for i in range(nt - 1):
         t0, h = tl[i], tl[i + 1] - tl[i]
         calls = log[i * s:(i + 1) * s]
-        first_ok = abs(calls[0][0] - t0) <= TOL_EPS * eps * (abs(t0) + abs(h)) and torch.equal(calls[0][1], ytf[i])
+        first_ok = abs(calls[0][0] - t0) <= TOL_EPS * te * (abs(t0) + abs(h)) and torch.equal(calls[0][1], ytf[i])
         if not first_ok and bad is None:
             bad = ("stage_y", i, 0, float("nan"), _inf(calls[0][1] - ytf[i]), calls[0][0], t0)
         Kmat = torch.stack([c[2] for c in calls] + [torch.zeros(N, dtype=ytf.dtype)])
         tobs = torch.tensor([c[0] for c in calls[1:]] + [tl[i + 1]], dtype=torch.float64)
         yobs = torch.stack([c[1] for c in calls[1:]] + [ytf[i + 1]])
-        rt, ry, rb = _stage_check(R, t0, h, ytf[i], Kmat, tobs, yobs, eps)
+        rt, ry, rb = _stage_check(R, t0, h, ytf[i], Kmat, tobs, yobs, eps, dh=dh_rel * abs(h), teps=teps)
         rp.worst_t, rp.worst_y, rp.worst_b = max(rp.worst_t, rt), max(rp.worst_y, ry), max(rp.worst_b, rb)
         if max(rt, ry, rb) > TOL_EPS and bad is None:
             bad = ("stage_t" if rt > TOL_EPS else ("stage_y" if ry > TOL_EPS else "step_b"), i, -1, rt, max(ry, rb), tl[i], tl[i + 1])
@@ -401,11 +430,16 @@ class _Collector:
         return bool(cond)
 
 
-def replay_adaptive(method, log, ts, y0f, ytf, atol, rtol, obs, key, eps, partial=False):
+def replay_adaptive(method, log, ts, y0f, ytf, atol, rtol, obs, key, eps, partial=False, teps=None):
     """classify every attempted step of the embedded pair from the call history and check it against the reference pair.
     Internal variables: tau = sigma*t, kappa = sigma*k with sigma = sign(ts[1]-ts[0]) (time reflection).
     partial=True: the solver is still running (history incomplete, no result yet): only the checks that a longer history
-    cannot revoke are made (the spy uses this to stop a run that has already left the declared scheme)."""
+    cannot revoke are made (the spy uses this to stop a run that has already left the declared scheme).
+    teps: precision of the time grid when its dtype differs from the state's; time comparisons use te = max(eps, teps) and the
+    uncertainty of the recorded step size enters the rounding bound of the error estimate (te = eps, no change, otherwise)."""
+    te = eps if teps is None else max(eps, teps)
+    mixed = te > eps
+    epsr = max(eps, 2.3e-16)
     R = _ref_t(method)
     s = R["s"]
     rp = Replay()
@@ -420,12 +454,12 @@ def replay_adaptive(method, log, ts, y0f, ytf, atol, rtol, obs, key, eps, partia
     tau = [sig * x for x in tl]
     nt = len(tl)
     tmag = max(abs(x) for x in tl)
-    eps_t = torch.finfo(ts.dtype).eps
+    eps_t = max(torch.finfo(ts.dtype).eps, te)
     if not obs.check(len(log) >= 1 + s and (len(log) - 1) % s == 0, "calls:%s" % key,
                      "%d right-hand-side calls: not 1 + k*%d (initial slope + %d evaluations per attempted step)" % (len(log), s, s)):
         return rp
     t_first, y_first, k_first = log[0]
-    ok0 = abs(sig * t_first - tau[0]) <= 4 * eps * tmag and torch.equal(y_first, y0f)
+    ok0 = abs(sig * t_first - tau[0]) <= 4 * te * tmag and torch.equal(y_first, y0f)
     if not obs.check(ok0, "first_call:%s" % key, "first call is not f(ts[0], y0): t=%r ts[0]=%r" % (t_first, tl[0])):
         return rp
     prev = None
@@ -449,10 +483,10 @@ def replay_adaptive(method, log, ts, y0f, ytf, atol, rtol, obs, key, eps, partia
             h = t_last - t0c
             Kmat = torch.cat([K0c.unsqueeze(0), kap])
             if finite and fin0 and bool(torch.isfinite(K0c).all()):
-                rt, ry, rb = _stage_check(R, t0c, h, y0c, Kmat, tobs, yobs, eps, tmag, dh=4 * eps_t * (abs(t0c) + abs(t_last)))
+                rt, ry, rb = _stage_check(R, t0c, h, y0c, Kmat, tobs, yobs, eps, tmag, dh=4 * eps_t * (abs(t0c) + abs(t_last)), teps=te)
             else:
                 tp = t0c + R["c_t"] * h
-                rt = float(((tobs - tp).abs() / (eps * (abs(t0c) + abs(h) + tmag) + 1e-300)).max())
+                rt = float(((tobs - tp).abs() / (te * (abs(t0c) + abs(h) + tmag) + 1e-300)).max())
                 ry = rb = 0.0
             score = max(rt, ry, rb)
             if best is None or score < best[0]:
@@ -479,7 +513,9 @@ def replay_adaptive(method, log, ts, y0f, ytf, atol, rtol, obs, key, eps, partia
             ev = torch.matmul(R["E_t"], Kmat.double())
             a.err = abs(h) * float(torch.linalg.vector_norm(ev))
             # rounding bound of the estimate (sum_j E_j K_j cancels almost completely for a smooth right-hand side)
-            a.rnd = 16 * 2.3e-16 * abs(h) * math.sqrt(Kmat.shape[1]) * float(torch.matmul(R["E_t"].abs(), Kmat.double().abs().amax(dim=1)))
+            a.rnd = 16 * epsr * abs(h) * math.sqrt(Kmat.shape[1]) * float(torch.matmul(R["E_t"].abs(), Kmat.double().abs().amax(dim=1)))
+            if mixed:   # the step size is only known as the difference of two times recorded in the lower precision
+                a.rnd += 4 * eps_t * (abs(t0c) + abs(t_last)) * float(torch.linalg.vector_norm(ev))
             a.scale = atol + rtol * max(float(torch.linalg.vector_norm(y0c)), float(torch.linalg.vector_norm(a.ynew)))
         else:
             a.err, a.scale, a.rnd = float("nan"), float("nan"), 0.0
@@ -493,7 +529,7 @@ def replay_adaptive(method, log, ts, y0f, ytf, atol, rtol, obs, key, eps, partia
         return rp
     prev.status = "pending" if partial else "accepted"
     # ---- accepted steps: error estimate within tolerance, monotone progress, landing on the requested times
-    ttol = 64 * eps * tmag
+    ttol = 64 * te * tmag
     acc_list = [a for a in rp.attempts if a.status == "accepted"]
     for n, a in enumerate(rp.attempts):
         if a.status == "rejected":
@@ -507,7 +543,7 @@ def replay_adaptive(method, log, ts, y0f, ytf, atol, rtol, obs, key, eps, partia
         rp.accepted += 1
         if a.h == 0.0:
             rp.zero_steps += 1
-        within = a.err - a.rnd < a.scale * (1 + 1e-9) or (a.h == 0.0)
+        within = a.err - a.rnd < a.scale * (1 + max(1e-9, 8 * eps)) or (a.h == 0.0)
         if a.scale > 0 and a.err == a.err:
             rp.max_err_ratio = max(rp.max_err_ratio, a.err / a.scale)
         if not within and fail is None:
@@ -915,8 +951,10 @@ def cases(seed, tier):
             for direction in ("inc", "dec"):
                 add("degenerate", n, method=m, var=var, dir=direction)
                 n += 1
-    from vf import c07_extra
+    from vf import c07_extra, c07_tdtype, c07_firststep
     out.extend(c07_extra.cases(seed, tier))
+    out.extend(c07_tdtype.cases(seed, tier))
+    out.extend(c07_firststep.cases(seed, tier))
     return out
 
 
@@ -1631,6 +1669,12 @@ def run_case(desc):
     if desc.get("group") == "alias":
         from vf import c07_extra
         return c07_extra.run_case(desc)
+    if desc.get("group") == "tdtype":
+        from vf import c07_tdtype
+        return c07_tdtype.run_case(desc)
+    if desc.get("group") == "firststep":
+        from vf import c07_firststep
+        return c07_firststep.run_case(desc)
     obs = Obs(desc)
     g = desc["group"]
     obs.count("group_%s" % g)
